@@ -11,6 +11,13 @@ NOTE = ("Trusted: the gosym interpreter and its intrinsics (validated on every r
         "nothing outside them is claimed. Goroutine interleavings are not explored.")
 
 claimed = {
+ "C02": ("DESIGN.md §4 C02", "Real forkPoint/newFork/delFork fork table, real stream source and FromNode.matches driven by symbolic db/rp/measurement bytes and a Choose-structured history of task start/stop and writes: each from() sink holds exactly the points written while its task ran that it declared and selects, once, in order; other tasks' start/stop cannot change it. FromNode.matches/Point against the filter reference with symbolic predicate results."),
+ "C06": ("DESIGN.md §4 C06", "ToGroupID injectivity decided over all tag value bytes (known finding recorded with an exact class predicate); groupedConsumer dispatch against a reference call log; non-interference of stateful nodes (stateCount, stateDuration, derivative, changeDetect, sample, window, where) under every interleaving of two groups with symbolic data, versus the solo run."),
+ "C08": ("DESIGN.md §4 C08", "services/alert persistence over an in-harness transactional store with a snapshot per commit: symbolic event levels/times, crash at every transaction boundary (or close-and-restore), restart: every ID resumes at its last recorded non-OK level and continuing yields the same topic state and handler (level, previous level) notifications as the uninterrupted run. Topics.UpdateEvent/RestoreTopic kernels."),
+ "C13": ("DESIGN.md §4 C13", "parse(format(parse(x))) Equal parse(x) and format stability for every accepted text built from literal/token contexts plus N arbitrary bytes; operator precedence/parenthesisation round trip with operators given as arbitrary bytes; code-built duration nodes (known finding for sub-microsecond durations). Pipeline->TICKscript and JSON round trips are outside (reflection/encoding/json)."),
+ "C14": ("DESIGN.md §4 C14", "Narrow kernel only (last sentence of C14): updateAllAssociatedTasks over in-harness DAOs with a symbolic failure position: all associated tasks carry the new template or all exactly their previous definition. Everything else in C14 (API histories, restarts, Bolt) is outside the claim."),
+ "C15": ("DESIGN.md §4 C15", "IndexedStore over an in-harness ordered transactional store with symbolic write/commit faults: inductive step for Create/Put/Replace/Delete/Rebuild (bijection of data and indexes, Get, atomicity), List/ReverseList with symbolic pattern bytes, offset and limit against a reference slice, key injectivity for symbolic IDs (known finding for '.'/'..'). Bolt itself is outside."),
+ "C16": ("DESIGN.md §4 C16", "QueryNode.Queries(start,stop) equals the list of live ticks (every/align tables, symbolic start and span) with [tick-offset-period, tick-offset) bounds; live doQuery loop with symbolic ticks; query text re-parsed and evaluated on a symbolic row: selected iff user condition AND start<=t<stop; checkDBRPs. cron schedules and real tickers are outside."),
  "C04": ("DESIGN.md §4 C04", "Compiled lambda expressions `a op b` over the full operator x operand-kind matrix with fully symbolic values equal an independent typed reference (value, kind, error-ness); history independence of the re-specialisation cache (evaluate on S1 then S2, kinds changing); AND/OR short-circuit. Function library beyond strSubstring, regex matching, depth > 2 are outside (see evidence)."),
  "C05": ("DESIGN.md §4 C05", "Kernels of the no-crash property decided per entry point: ast.Parse/ParseLambda on 27 contexts with N arbitrary inserted bytes (no panic in any goroutine, node xor error, lexer goroutine gone on return, termination within the unwinding budget); further kernels (evaluator faults, node runner, UDF peer messages) as listed in the evidence file. Only these entry points are claimed."),
  "C03": ("DESIGN.md §4 C03", "Time windows: for a table of period/every/align/fillPeriod configurations and every bounded non-decreasing timestamp sequence the solver shows each emission is on the reference schedule with exactly the points in [T-period,T); the ring buffer is covered for histories of any length by an inductive step from an arbitrary valid state; count windows likewise."),
